@@ -494,7 +494,7 @@ func (x *Exec) isNil(v Val) string {
 		if v.Ptr.Local != nil || v.Ptr.Fresh {
 			return "false"
 		}
-		if len(v.Ptr.Path) > 0 || (v.Ptr.Rows && v.Ptr.ArrLen == 0) {
+		if len(v.Ptr.Path) > 0 || (v.Ptr.Rows && !v.Ptr.IsArr) {
 			return "false" // interior pointers are never nil (their base was checked)
 		}
 		return sx("=", v.Ptr.Root, "0")
